@@ -76,6 +76,8 @@ func (c *typeDefFirstChecker) receiverType(e ast.Expr) string {
 	switch e := e.(type) {
 	case *ast.StarExpr:
 		return c.receiverType(e.X)
+	case *ast.ParenExpr:
+		return c.receiverType(e.X)
 	case *ast.Ident:
 		return e.Name
 	case *ast.IndexExpr:
